@@ -895,6 +895,23 @@ impl<'tcx> Ex<'tcx> {
                     }
                 }
             }
+            ty::Adt(def, _) if def.is_enum() && def.variants().iter().all(|v| v.fields.is_empty()) => {
+                // field-less enum constant (`Ordering::Greater`): name the variant
+                let env = TypingEnv::post_analysis(tcx, did);
+                let r = std::panic::catch_unwind(std::panic::AssertUnwindSafe(|| c.try_eval_scalar_int(tcx, env)));
+                if let Ok(Some(si)) = r {
+                    let size = si.size();
+                    let bits = si.to_bits(size);
+                    let mask: u128 = if size.bits() >= 128 { u128::MAX } else { (1u128 << size.bits()) - 1 };
+                    for (vi, d) in def.discriminants(tcx) {
+                        if (d.val & mask) == (bits & mask) {
+                            o.push(("variant".into(), s(def.variant(vi).name.as_str())));
+                            o.push(("adt".into(), s(self.cpath(def.did()))));
+                            break;
+                        }
+                    }
+                }
+            }
             _ => {}
         }
         if let Const::Unevaluated(uv, _) = c {
